@@ -20,6 +20,7 @@ import (
 	"os"
 	"reflect"
 	"strings"
+	"unsafe"
 
 	"github.com/libsv/go-bt/v2"
 	"github.com/libsv/go-bt/v2/bscript"
@@ -155,6 +156,111 @@ type Runner struct {
 	Legacy bool
 	api    string
 	kept   []keptPre
+	share  shareStats
+}
+
+// shareStats: what Tx.Clone's result shares with the original, by pointer identity (the premise of the
+// pointer-level frame theorem, coq/model/SigHeap.v clone_deep / proofs/SigHeapProofs.v fresh_clone: the Tx
+// struct, every *Input, every *Output and the UnlockingScript / LockingScript cells of the clone are new;
+// the PreviousTxScript pointers are the original's - tx.go copies the pointer)
+type shareStats struct {
+	Clones, Objects              int // clones examined; *Input + *Output + Unlocking/LockingScript pointers and byte arrays compared
+	SharedStruct                 int // clone == original, or a slice of pointers with the original's backing array
+	SharedInput, SharedOutput    int // *Input / *Output of the clone that is one of the original's
+	SharedUnlock, SharedLock     int // *bscript.Script (or its byte array) of the clone that is one of the original's
+	PrevScriptSame, PrevScriptNew int // PreviousTxScript pointer of input j: the original's input j's / any other non-nil pointer
+}
+
+func dataPtr(s *bscript.Script) unsafe.Pointer {
+	if s == nil || len(*s) == 0 {
+		return nil
+	}
+	return unsafe.Pointer(&(*s)[0])
+}
+
+// observeClone: pointer identities of tx.Clone() against tx.  Reads only; the clone is dropped.
+func (r *Runner) observeClone(s txgen.TxSpec, tx *bt.Tx) {
+	// Clone ends the process (log.Fatal) when the transaction's own bytes do not re-parse: no inputs (the
+	// extended-format marker ambiguity) or a previous txid that is not 32 bytes; and Bytes() dereferences
+	// every LockingScript.  Only transactions outside those shapes are cloned here.
+	if len(tx.Inputs) == 0 {
+		return
+	}
+	for _, i := range tx.Inputs {
+		if i == nil || len(i.PreviousTxID()) != 32 {
+			return
+		}
+	}
+	for _, o := range tx.Outputs {
+		if o == nil || o.LockingScript == nil {
+			return
+		}
+	}
+	in := map[string]interface{}{"tx": s, "what": "Tx.Clone pointer identities"}
+	r.C.InFlight("Tx.Clone/process-abort", in)
+	var cl *bt.Tx
+	if panicked, _ := common.Safely(func() { cl = tx.Clone() }); panicked || cl == nil {
+		return
+	}
+	st := &r.share
+	st.Clones++
+	orig := map[unsafe.Pointer]bool{}
+	add := func(p unsafe.Pointer) {
+		if p != nil {
+			orig[p] = true
+		}
+	}
+	for _, i := range tx.Inputs {
+		add(unsafe.Pointer(i))
+		if i != nil {
+			add(unsafe.Pointer(i.UnlockingScript))
+			add(unsafe.Pointer(i.PreviousTxScript))
+			add(dataPtr(i.UnlockingScript))
+			add(dataPtr(i.PreviousTxScript))
+		}
+	}
+	for _, o := range tx.Outputs {
+		add(unsafe.Pointer(o))
+		if o != nil {
+			add(unsafe.Pointer(o.LockingScript))
+			add(dataPtr(o.LockingScript))
+		}
+	}
+	if cl == tx || (len(cl.Inputs) > 0 && &cl.Inputs[0] == &tx.Inputs[0]) ||
+		(len(cl.Outputs) > 0 && len(tx.Outputs) > 0 && &cl.Outputs[0] == &tx.Outputs[0]) {
+		st.SharedStruct++
+	}
+	for j, i := range cl.Inputs {
+		if i == nil {
+			continue
+		}
+		st.Objects += 3
+		if orig[unsafe.Pointer(i)] {
+			st.SharedInput++
+		}
+		if i.UnlockingScript != nil && (orig[unsafe.Pointer(i.UnlockingScript)] || orig[dataPtr(i.UnlockingScript)]) {
+			st.SharedUnlock++
+		}
+		if j < len(tx.Inputs) && tx.Inputs[j] != nil && i.PreviousTxScript != nil {
+			if i.PreviousTxScript == tx.Inputs[j].PreviousTxScript {
+				st.PrevScriptSame++
+			} else {
+				st.PrevScriptNew++
+			}
+		}
+	}
+	for _, o := range cl.Outputs {
+		if o == nil {
+			continue
+		}
+		st.Objects += 3
+		if orig[unsafe.Pointer(o)] {
+			st.SharedOutput++
+		}
+		if o.LockingScript != nil && (orig[unsafe.Pointer(o.LockingScript)] || orig[dataPtr(o.LockingScript)]) {
+			st.SharedLock++
+		}
+	}
 }
 
 func dsha(b []byte) []byte {
@@ -294,6 +400,7 @@ func (r *Runner) txCases(s txgen.TxSpec, only int, kind string) {
 	c := r.C
 	tx := Build(s)
 	fam := r.family()
+	r.observeClone(s, tx)
 	emit := func(calls []call, what string, nontrivial bool) {
 		var cs []string
 		for _, k := range calls {
@@ -532,6 +639,13 @@ func Run(prop string, legacy bool) {
 	}
 	c.Stats.Rule = "generated transactions (fixed shapes {1,0},{1,1},{2,1},{3,3},{2,3},{4,2},{1,3},{3,0} inputs/outputs + random 1..4 x 0..4; boundary field values; scripts of 0..34 bytes, thorough also 75/76/252/253/254/300; nil/empty unlocking scripts; empty and nil previous scripts; missing previous txid) x all " + fam +
 		" x every in-range input index, plus indices n, n+1, 0x7fffffff, 0x80000000, 0xfffffffe, 0xffffffff x 8 types; every call also through CalcInputSignatureHash. A case = one transaction object and the sequence of calls made on it (one in-range index x 128 types, or the out-of-range indices); observables: error class, preimage length and SHA-256, signature hash, ExtendedBytes after all calls. distinct = distinct (transaction bytes, index); non-trivial = at least one call returned a preimage. Node vectors (bscript/interpreter/data/sighash_*.json) are evaluated against the Coq specification and against the harness's Go reference."
+	c.Stats.Extra["clone_pointer_identity"] = map[string]int{
+		"clones_examined": r.share.Clones, "pointers_and_arrays_compared": r.share.Objects,
+		"tx_struct_or_pointer_slice_shared": r.share.SharedStruct,
+		"input_objects_shared": r.share.SharedInput, "output_objects_shared": r.share.SharedOutput,
+		"unlocking_scripts_shared": r.share.SharedUnlock, "locking_scripts_shared": r.share.SharedLock,
+		"previous_script_pointer_is_the_originals": r.share.PrevScriptSame, "previous_script_pointer_new": r.share.PrevScriptNew,
+	}
 	c.Finish()
 }
 
